@@ -841,7 +841,7 @@ def path_spelling_cases(ctx, spy, sample):
             os.environ["HOME"] = old_home
 
 
-NONREG_TIMEOUT = 10.0
+NONREG_TIMEOUT = 60.0
 
 
 def _in_thread(fn, timeout=NONREG_TIMEOUT):
